@@ -33,6 +33,11 @@ def main():
         subprocess.run(["git", "-C", "/repo", "checkout", "--", "."])
         subprocess.run(["git", "-C", "/repo", "clean", "-fdq"])
     print(json.dumps({"seed": sid, "tier": tier, "results": res}))
+    ev = os.path.join(d, "eval.json")
+    allr = json.load(open(ev)) if os.path.exists(ev) else {}
+    for p, r in res.items():
+        allr[f"{p}:{tier}"] = {"detected": r["exit"] != 0 and bool(r["violations"]), "violations": r["violations"], "wall_s": r["wall_s"]}
+    json.dump(allr, open(ev, "w"), indent=1)
     return 0
 if __name__ == "__main__":
     sys.exit(main())
